@@ -14,9 +14,12 @@ CLAIMS = {
  "C03": ("(C03.a) line splitting is requested exactly when unsafe data is sealed, in every reachable buffer configuration; with C01.a/I2 every envelope is escaped-and-split before it is closed. The splitter's byte arithmetic is not decided.", "§5 C03", TECH_A),
  "C05": ("Both directions of the classification at the granularity of write events: nothing tainted outside (C02.a), no public text inside envelopes (C05.b), full rendering of safe values visible (C05.c), state restored after every leaf at every depth on every exit (C01.d).", "§5 C05", TECH_AB),
  "C06": ("The override discipline over every re-entrant path: (C06.a) every write under an effective unsafe context (own or borrowed through nested printers) is enveloped; (C05.c) safe override keeps writes visible; (C06.c) outermost wins in the four start* helpers; (C06.e) redact-specific dispatch is bypassed under Unsafe().", "§5 C06", TECH_AB),
+ "C07": ("Decides the two marker patterns as regular languages (DFA construction from regexp/syntax, equivalence with start·(Σ∖{start,end})*·end and {start,end}, prefix-freeness), the replacement constants that make Redact/StripMarkers/EscapeMarkers exact and idempotent, and agreement of the string and []byte variants. Trusts Go's regexp for leftmost-first matching and ReplaceAll.", "§5 C07", "static analysis: constant folding of the pattern expressions + regular-language decision procedure (regexp/syntax program -> DFA, product-automaton equivalence)"),
  "C08": ("(C08.a) redactable operands are inlined raw by a direct buffer write in every configuration outside Unsafe(), escaped inside; (C08.b) a redactable operand flows nowhere else. The induction over re-print histories is an argument, not an analysis result.", "§5 C08", TECH_AB),
  "C11": ("Containment of user-method panics: (C11.c) no uncontained panicking exit from the dispatcher, re-raise only for nested panics, the panic report is written in the caller's classification; (C01.d) restorers run on panic paths.", "§5 C11", TECH_A),
  "C12": ("Pool hygiene (C12.b): every printer handed to sync.Pool.Put has no override, no captured error, a reset buffer; newPrinter re-establishes the per-call flags. No schedule is explored.", "§5 C12", TECH_A),
+ "C14": ("MakeFormat is interpreted abstractly for all 2^7 fmt.State configurations x 4 verb classes and must return exactly the directive; pp.Flag for all 2^7 flag states x 6 characters; the wrappers and ReproducePrintf are checked structurally. The concrete round trip through fmt's parser is not executed.", "§5 C14", "static analysis: exhaustive abstract interpretation of MakeFormat/pp.Flag over their finite configuration space (go/ssa) + structural SSA rules"),
+ "C15": ("(C15.b/c) every function to which the format loop hands a verb either captures or rejects a %w and leaves the pair alone for other verbs, for every state of (wrapErrs, wrappedErr) and every route of the operand; (C15.d) HelperForErrorf arms, formats, reads and frees in that order; (C12.b) pool reuse clears the slot. Text equality with fmt.Errorf is C04's business.", "§5 C15", TECH_A),
  "C13": ("(C13.a) accessors never write the receiver, (C13.c) Reset/Take* end in the zero configuration, for every entry configuration of the buffer state machine.", "§5 C13", TECH_A),
 }
 
